@@ -4,6 +4,7 @@ import (
 	"context"
 	"fmt"
 	"math/big"
+	"slices"
 	"time"
 
 	awskinesis "github.com/aws/aws-sdk-go-v2/service/kinesis"
@@ -97,7 +98,16 @@ func (s *SourceSplitter) Start(ckpt *snapshotpb.SourceCheckpoint) error {
 	if err != nil {
 		return fmt.Errorf("kinesis.SourceSplitter failed to discover shards: %w", err)
 	}
-	pendingShards = append(pendingShards, s.splitTracker.AvailableSplits()...)
+	// The shards loaded from the checkpoint are known but unassigned, so they are
+	// among the available splits as well: add only the newly discovered ones.
+	for _, shard := range s.splitTracker.AvailableSplits() {
+		alreadyPending := slices.ContainsFunc(pendingShards, func(p SourceSplitterShard) bool {
+			return p.ShardID == shard.ShardID
+		})
+		if !alreadyPending {
+			pendingShards = append(pendingShards, shard)
+		}
+	}
 
 	// Do the initial split assignment
 	s.assignShards(ctx, pendingShards)
